@@ -125,9 +125,25 @@ def r_module_state(repo, rep, R, rels, consequence, only=None):
                         if base_ is not None and once_ and base_ in shared and base_ not in local and _entries_are_objects(shared[base_].value):
                             alias[n_.targets[0].id] = base_
                             entry_alias.add(n_.targets[0].id)
+            # a parameter whose default is a shared object (or an object created once, when the `def` runs): every call that
+            # leaves the parameter out works on that one object
+            all_params = fn.args.posonlyargs + fn.args.args
+            dflts = list(zip(reversed(all_params), reversed(fn.args.defaults))) + [(a_, d_) for a_, d_ in zip(fn.args.kwonlyargs, fn.args.kw_defaults) if d_ is not None]
+            own_default = {}
+            for a_, d_ in dflts:
+                once_ = sum(1 for x_ in ast.walk(fn) if isinstance(x_, ast.Name) and isinstance(x_.ctx, ast.Store) and x_.id == a_.arg) == 0 or \
+                    all(isinstance(x_._parent, ast.AugAssign) for x_ in ast.walk(fn) if isinstance(x_, ast.Name) and isinstance(x_.ctx, ast.Store) and x_.id == a_.arg and hasattr(x_, '_parent'))
+                if not once_:
+                    continue
+                if isinstance(d_, ast.Name) and d_.id in shared:
+                    alias[a_.arg] = d_.id
+                elif isinstance(d_, (ast.List, ast.Dict, ast.Set)) or (isinstance(d_, ast.Call) and src(d_.func) in ('list', 'dict', 'set', 'collections.OrderedDict', 'OrderedDict', 'defaultdict')):
+                    own_default[a_.arg] = d_
             shared_here = dict(shared)
             for a_, b_ in alias.items():
                 shared_here[a_] = shared[b_]
+            for a_, d_ in own_default.items():
+                shared_here[a_] = d_
             local = local - set(alias)
             for n_ in ast.walk(fn):
                 hit = None
@@ -141,6 +157,14 @@ def r_module_state(repo, rep, R, rels, consequence, only=None):
                 if isinstance(n_, (ast.Subscript, ast.Attribute)) and isinstance(n_.ctx, (ast.Store, ast.Del)) and isinstance(n_.value, ast.Name) \
                         and n_.value.id in shared_here and n_.value.id not in local:
                     hit = (n_.value.id, 'item / attribute assigned')
+                if isinstance(n_, ast.AugAssign) and isinstance(n_.target, ast.Name) and n_.target.id in shared_here and (n_.target.id not in local or n_.target.id in own_default) \
+                        and isinstance(n_.op, (ast.BitOr, ast.Add, ast.BitAnd, ast.Sub, ast.BitXor, ast.Mult)) and (n_.target.id in alias or n_.target.id in own_default):
+                    hit = (n_.target.id, 'updated in place with %s=' % {'BitOr': '|', 'Add': '+', 'BitAnd': '&', 'Sub': '-', 'BitXor': '^', 'Mult': '*'}[type(n_.op).__name__])
+                if hit and hit[0] in own_default:
+                    rep.violation(R, '%s:%s %s' % (rel, n_.lineno, qualname_of(fn)), '%s:%s:default-state:%s' % (rel, qualname_of(fn), hit[0]),
+                                  '%s changes its parameter `%s` (%s), whose default value is one object created when the function was defined: what a call leaves in it is what '
+                                  'the next call starts from -- %s' % (qualname_of(fn), hit[0], hit[1], consequence))
+                    continue
                 if hit:
                     through = ' through its entry `%s`' % hit[0] if hit[0] in entry_alias else ''
                     hit = (alias.get(hit[0], hit[0]), hit[1])
@@ -1001,3 +1025,69 @@ def r_yields_fresh(repo, rep, R, targets, consequence):
                   '%s hands out objects made for that result' % name,
                   '%s yields `%s`, a container created once before the loop at line %s and refilled in every round: all results hold the same object -- %s'
                   % (name, hits[0][2] if hits else '', hits[0][3].lineno if hits else 0, consequence))
+
+
+# ---------------------------------------------------------------------------------------------------------------------
+# values that differ from one run / one moment to the next
+# ---------------------------------------------------------------------------------------------------------------------
+AMBIENT_MODULES = {'time', 'datetime', 'random', 'uuid', 'secrets', 'getpass', 'socket', 'platform', 'tempfile'}
+AMBIENT_CALLS = {'os.getpid', 'os.urandom', 'os.getenv', 'os.getcwd', 'os.times', 'os.getlogin', 'os.uname', 'id', 'hash', 'threading.get_ident', 'threading.current_thread'}
+AMBIENT_EXAMPLE = '''
+from datetime import datetime
+
+
+def page(trees):
+    stamp = datetime.now().isoformat()
+    return '<footer>%s</footer>' % stamp
+'''
+
+
+def ambient_reads(tree):
+    """calls whose value is not a function of the arguments: the clock, random numbers, process / host identity, the
+    address of an object (id, and hash of anything whose hash is address- or seed-based).  -> [(call node, function, text)]"""
+    imported = {}       # local name -> 'module' or 'module.attr'
+    for st in ast.walk(tree):
+        if isinstance(st, ast.Import):
+            for al in st.names:
+                if al.name.split('.')[0] in AMBIENT_MODULES:
+                    imported[al.asname or al.name.split('.')[0]] = al.name.split('.')[0]
+        if isinstance(st, ast.ImportFrom) and st.module and st.module.split('.')[0] in AMBIENT_MODULES:
+            for al in st.names:
+                imported[al.asname or al.name] = '%s.%s' % (st.module, al.name)
+    out = []
+    for c in ast.walk(tree):
+        if not isinstance(c, ast.Call):
+            continue
+        f = c.func
+        txt = src(f)
+        root = f
+        while isinstance(root, ast.Attribute):
+            root = root.value
+        hit = None
+        if isinstance(root, ast.Name) and root.id in imported and not (isinstance(f, ast.Name) and imported[root.id].endswith(('.sleep', '.timedelta', '.date', '.time'))):
+            if txt.split('.')[-1] not in ('sleep', 'timedelta', 'strptime', 'fromisoformat'):
+                hit = '%s (%s)' % (txt, imported[root.id])
+        if txt in AMBIENT_CALLS and (txt not in ('id', 'hash') or c.args):
+            hit = txt
+        if hit:
+            fn = enclosing_function(c)
+            out.append((c, fn, hit))
+    return out
+
+
+def r_no_ambient_reads(repo, rep, R, files, consequence, allow=()):
+    from .core import attach_parents
+    ex = attach_parents(ast.parse(AMBIENT_EXAMPLE))
+    if [h[2] for h in ambient_reads(ex)] != ['datetime.now (datetime.datetime)']:
+        raise AnalysisError('the ambient-value rule does not match its positive example: %s' % [h[2] for h in ambient_reads(ex)])
+    n = 0
+    for rel in files:
+        mod = repo.module(rel)
+        n += 1
+        for node, fn, what in ambient_reads(mod.tree):
+            if what.split(' ')[0] in allow:
+                continue
+            rep.check(False, R, '%s:%s %s' % (rel, node.lineno, qualname_of(fn) if fn is not None else '<module>'),
+                      '%s:%s:ambient:%s' % (rel, qualname_of(fn) if fn is not None else '<module>', what.split(' ')[0]), '',
+                      '%s is read while rendering: its value is not determined by the parse results -- %s' % (what, consequence))
+    rep.check(True, R, files[0], 'printers:no-ambient-values', 'what is written is computed from the parse results alone: no clock, random number, process identity or object address is read in %d modules' % n, '')
